@@ -1351,6 +1351,7 @@ func (m *Machine) queueMutation(
 	mut.QueueTickNow = m.queueTick
 	// fmt.Printf("mut.QueueTickNow %d\n", mut.QueueTickNow)
 	m.queueMx.Unlock()
+	verifPoint(m, "qm:appended")
 
 	// tracers
 	m.log(LogOps, "[queue:%s] %s%s", mutType, j(statesParsed),
@@ -2029,6 +2030,7 @@ func (m *Machine) processQueue() Result {
 
 	// try to acquire the lock TODO safer locking for handler deadlines?
 	if !m.queueProcessing.CompareAndSwap(false, true) {
+		verifPoint(m, "pq:casFailed")
 
 		m.queueMx.Lock()
 		defer m.queueMx.Unlock()
@@ -2118,9 +2120,11 @@ func (m *Machine) processQueue() Result {
 	}
 
 	// release the locks
+	verifPoint(m, "pq:loopExit")
 	m.t.Store(nil)
 	m.queueProcessing.Store(false)
 	m.queueRunning.Store(false)
+	verifPoint(m, "pq:released")
 
 	// tracers
 	m.tracersMx.RLock()
